@@ -49,3 +49,23 @@ Example C20_example :
   snd (run (fun (p : nat) (d : nat) => if Nat.eqb d 0 then None else Some (p + d)) 10 [3; 0; 3; 7; 3]) =
   [Some 13; None; Some 13; Some 17; Some 13].
 Proof. reflexivity. Qed.
+
+(* state shared by the whole process (module-level tables, library-wide settings): one world for all objects *)
+Theorem C20_process_wide_state_single_steps_suffice : forall (P G D O : Type) (wout : P -> G -> D -> O)
+    (wnext : P -> G -> D -> G) (g0 : G),
+  (forall calls c p d, wout p (world_after P G D wnext g0 (calls ++ [c])) d = wout p (world_after P G D wnext g0 calls) d) ->
+  world_blind P G D O wout wnext g0.
+Proof. exact world_blind_by_single_steps. Qed.
+Print Assumptions C20_process_wide_state_single_steps_suffice.
+
+Theorem C20_blind_world_answers_as_a_new_interpreter : forall (P G D O : Type) (wout : P -> G -> D -> O)
+    (wnext : P -> G -> D -> G) (g0 : G) calls,
+  world_blind P G D O wout wnext g0 ->
+  forall pre, map (fun c => wout (fst c) (world_after P G D wnext g0 pre) (snd c)) calls
+              = map (fun c => wout (fst c) g0 (snd c)) calls.
+Proof. exact world_blind_outputs. Qed.
+Print Assumptions C20_blind_world_answers_as_a_new_interpreter.
+
+Example C20_a_library_wide_switch_is_seen :
+  ~ world_blind unit bool bool bool (fun _ g _ => g) (fun _ g d => orb g d) false.
+Proof. exact switch_world_not_blind. Qed.
